@@ -846,17 +846,24 @@ def _optimizer(ctx, model):
         if len(gen.ifs) != 1:
             raise AnalysisError("_VarArgsRemover: filter shape")
         test = gen.ifs[0]
+        v = gen.target.id if isinstance(gen.target, ast.Name) else "?"
         if it == "node.args":
-            flag, atom, what = "drop_args", "isinstance(arg, ast.Starred)", "*args"
+            flag, what = "drop_args", "*args"
         elif it == "node.keywords":
-            flag, atom, what = "drop_kwargs", "kw.arg is not None", "**kwargs"
+            flag, what = "drop_kwargs", "**kwargs"
         else:
             raise AnalysisError(f"_VarArgsRemover: iterates {it}")
         ok = True
         for fl, special in itertools.product([True, False], repeat=2):
-            # special: the element is the starred arg / the ** keyword
-            atom_val = special if flag == "drop_args" else (not special)
-            env = {flag: fl, atom: atom_val,
+            # special: the element is the splat of the dropped parameter; every
+            # test a filter makes about the element (is it starred, has it no
+            # keyword name, is it the dropped name) holds for it and fails for
+            # an ordinary argument
+            env = {flag: fl,
+                   f"isinstance({v}, ast.Starred)": special,
+                   f"{v}.arg is None": special,
+                   f"{v}.arg is not None": not special,
+                   "?": special,
                    "drop_args" if flag == "drop_kwargs" else "drop_kwargs": True}
             keep = _bool_eval(test, env)
             want = not (fl and special)
@@ -960,6 +967,49 @@ def _optimizer(ctx, model):
            "((type(expr), expr, args, immutabledict(kwargs))) every call of a "
            "rewritten CachedMapper ends in NameError: name 'args' is not "
            "defined -- for every option set with drop_args or drop_kwargs")
+
+    # ... and at call sites only the splats of the dropped parameters go: a
+    # filter that looks at nothing but "is it starred" / "has it no keyword
+    # name" also removes  mk(*[...])  and  f(**{...})
+    vc = var.members.get("visit_Call")
+    if vc is None or vc.kind != "func":
+        raise AnalysisError("_VarArgsRemover.visit_Call not found")
+    n_filters = 0
+    for comp in ast.walk(vc.node):
+        if not isinstance(comp, (ast.ListComp, ast.GeneratorExp)) or \
+                len(comp.generators) != 1:
+            continue
+        g = comp.generators[0]
+        src = U(g.iter)
+        kind = "args" if src.endswith(".args") else \
+            "keywords" if src.endswith(".keywords") else None
+        if kind is None or not isinstance(g.target, ast.Name) or not g.ifs:
+            continue
+        n_filters += 1
+        v = g.target.id
+        cond = ast.BoolOp(op=ast.And(), values=list(g.ifs))
+        looks_inside = any(
+            isinstance(a, ast.Attribute) and a.attr == "value"
+            and isinstance(a.value, ast.Name) and a.value.id == v
+            for a in ast.walk(cond)) or any(
+            isinstance(a, ast.Attribute) and a.attr in ("vararg_name",
+                                                        "kwarg_name")
+            for a in ast.walk(cond)) or any(
+            isinstance(c, ast.Call) and any(
+                isinstance(x, ast.Name) and x.id == v for x in c.args)
+            and U(c.func) != "isinstance" for c in ast.walk(cond))
+        what = "starred argument" if kind == "args" else "** mapping"
+        ctx.ob(f"T/optimizer/only-dropped-splats-removed:{kind}", looks_inside,
+               m.loc(comp),
+               f"a {what} is removed from a call only if it is the dropped "
+               "parameter" if looks_inside else
+               f"_VarArgsRemover.visit_Call removes every {what} from every "
+               "call, whatever is splatted: a handler that rebuilds its node "
+               "with mk(*[self.rec(c) for c in expr.children]) loses all "
+               "operands in the optimized mapper (Sum(()) instead of x + y + 3)")
+    if n_filters < 2:
+        raise AnalysisError("_VarArgsRemover.visit_Call: the filters over "
+                            "node.args / node.keywords were not recognised")
 
     def passes_flags(cls_name, flags):
         """the transformer is constructed with every flag passed under its own
